@@ -48,7 +48,7 @@ def correspondence(run):
                     {"outcomes_by_order": list(seen.values()), "required": "one outcome for every enumeration order"})
         return ("mismatch", "Model/Resolution.v and runner.py disagree on a call, identically for every enumeration order "
                             "(not an order dependence; see C05): " + rc.describe(obs, log, sp), {})
-    rc.correspond(run, pairs(run, run.n(1200, 12000)), None, "C06", judge=judge)
+    rc.correspond(run, pairs(run, run.n(900, 12000)), None, "C06", judge=judge)
 
 
 def check_orders(run, fam, call):
@@ -72,7 +72,7 @@ def check_orders(run, fam, call):
 def oracle(run, deep):
     for fam, call in rc.load_corpus("C06"):
         check_orders(run, fam, call)
-    n = run.n(250, 5000) * (3 if deep else 1)
+    n = run.n(170, 5000) * (3 if deep else 1)
     for i in range(n):
         fam = rc.gen_family_dense(run.rng) if i % 5 else rc.gen_family(run.rng)
         try:
